@@ -602,6 +602,44 @@ func famCrafted(pub ref.Point, seed uint64, emit func(candCase)) {
 	mk("crafted:t=n", add(sub(bigN, s), bigN), s, false)
 }
 
+// x1OverflowKey returns a public key P and scalars (s, t) such that
+// [s]G + [t]P has an x coordinate in [n, p): the verification equation
+// R = (e + x1) mod n then really reduces x1 (an event of probability 2^-128
+// for honest signatures). P = [1/t](X - [s]G) for a chosen point X.
+func x1OverflowKey(seed uint64) (P ref.Point, s, t *big.Int, X ref.Point) {
+	c := ref.SM2
+	for off := int64(seed % 1000); ; off++ {
+		if p, ok := c.LiftX(add(bigN, bi(off)), uint(off&1)); ok {
+			X = p
+			break
+		}
+	}
+	s, t = nonceFromSeed(gen.Mix(seed, 41)), nonceFromSeed(gen.Mix(seed, 42))
+	tInv := new(big.Int).ModInverse(t, bigN)
+	P = c.Mul(tInv, c.Add(X, c.Neg(c.BaseMul(s))))
+	return
+}
+
+func famX1Overflow(seed uint64, emit func(candCase)) {
+	P, s, t, X := x1OverflowKey(seed)
+	r := modN(sub(t, s))
+	if P.Inf || r.Sign() == 0 {
+		return
+	}
+	b, ok := craftedBase(P, r, s)
+	if !ok {
+		return
+	}
+	emit(b.cand("crafted-valid:x1>=n").withRS(r, s).expect(true))
+	// any other digest must fail, e.g. e + x1
+	other := b
+	other.Digest = ref.Bytes32(modN(add(new(big.Int).SetBytes(b.Digest), X.X)))
+	other.E = other.Digest
+	if !bytes.Equal(other.Digest, b.Digest) {
+		emit(other.cand("crafted:x1>=n-wrong-digest").withRS(r, s).expect(false))
+	}
+}
+
 // famBadPub: public keys that are not points of the curve, against a pair
 // that is valid for the curve point they resemble. Digest mode only.
 func famBadPub(seed uint64, emit func(candCase)) {
@@ -648,8 +686,8 @@ func edgeScalars(seed uint64) []*big.Int {
 	hz := scalarFromSeed(gen.Mix(seed, 5))
 	hz.Rsh(hz, 16) // two leading zero octets
 	return []*big.Int{
-		bi(1), bi(2), sub(bigN, bi(2)), bi(0x1234), hz,
-		scalarFromSeed(gen.Mix(seed, 6)), sub(bigN, bi(3)), new(big.Int).Lsh(one, 255), scalarFromSeed(gen.Mix(seed, 7)),
+		bi(1), sub(bigN, bi(2)), scalarFromSeed(gen.Mix(seed, 6)), hz, bi(2),
+		bi(0x1234), sub(bigN, bi(3)), new(big.Int).Lsh(one, 255), scalarFromSeed(gen.Mix(seed, 7)),
 	}
 }
 
@@ -668,8 +706,8 @@ func pickShape(mk func(kSeed uint64) base, seed uint64, shape int) base {
 
 func honestBases(seed uint64, offset, count int) []base {
 	ds := edgeScalars(seed)
-	uidLens := []int{0, 1, 16, 63, 64, 65, maxUID, -1, 7}
-	msgLens := []int{0, 1, 64, 55, 56, 2048, 119, 32, 300}
+	uidLens := []int{0, 16, maxUID, -1, 1, 63, 64, 65, 7}
+	msgLens := []int{0, 64, 119, 2048, 1, 55, 56, 32, 300}
 	var out []base
 	for i := offset; i < offset+count; i++ {
 		d, ul, ml := ds[i%len(ds)], uidLens[i%len(uidLens)], msgLens[i%len(msgLens)]
@@ -715,6 +753,8 @@ func TestC06_Crafted(t *testing.T) {
 			famCrafted(ref.SM2.BaseMul(d), s, emit)
 			famCrafted(smallXPoint(int64(s%5000)+2), s+1, emit)
 			famBadPub(s, emit)
+			famX1Overflow(s, emit)
+			famX1Overflow(s+17, emit)
 			// digests signed as such: random, small (so that e+n fits), >= n, and longer than 32 bytes
 			small := gen.Fill(s, 32)
 			copy(small, make([]byte, 5))
@@ -755,7 +795,7 @@ func TestC06_SubstExhaustive(t *testing.T) {
 type randCase struct {
 	KeyKind int
 	KeySeed uint64
-	Mode    int // 0 message mode, 1 digest mode, 2 crafted digest under a foreign key
+	Mode    int // 0 message mode, 1 digest mode, 2 crafted digest under a foreign key, 3 crafted digest for a short r or s
 	UIDLen  int
 	MsgLen  int
 	DigLen  int
@@ -834,9 +874,23 @@ func (rc randCase) expand() (candCase, bool) {
 		b = honestBase(d, rc.Seed, rc.UIDLen, rc.Seed+1, rc.MsgLen, rc.Seed+2)
 	case 1:
 		b = digestBase(d, rc.Seed, gen.Fill(rc.Seed+3, rc.DigLen))
-	default:
+	case 2:
 		var ok bool
 		b, ok = craftedBase(smallXPoint(int64(rc.KeySeed%100000)+1), nonceFromSeed(rc.Seed+4), nonceFromSeed(rc.Seed+5))
+		if !ok {
+			return candCase{}, false
+		}
+	default:
+		// a valid pair with a short r or s (so that n+r, n+s still fit into 32 bytes)
+		bits := []uint{8, 64, 128, 200, 224}[rc.KeySeed%5]
+		small := new(big.Int).Rsh(nonceFromSeed(rc.Seed+8), 256-bits)
+		small.Add(small, one)
+		r, s := small, nonceFromSeed(rc.Seed+5)
+		if rc.KeySeed&8 != 0 {
+			r, s = s, small
+		}
+		var ok bool
+		b, ok = craftedBase(ref.SM2.BaseMul(d), r, s)
 		if !ok {
 			return candCase{}, false
 		}
@@ -915,11 +969,11 @@ func (rc randCase) expand() (candCase, bool) {
 }
 
 func TestC06_Random(t *testing.T) {
-	h.Prop(t, h.P{Name: "random", Quick: 2500, Thorough: 60000}, func(rt *rapid.T) randCase {
+	h.Prop(t, h.P{Name: "random", Quick: 2000, Thorough: 40000}, func(rt *rapid.T) randCase {
 		rc := randCase{
 			KeyKind: rapid.IntRange(0, 7).Draw(rt, "keyKind"),
 			KeySeed: rapid.Uint64().Draw(rt, "keySeed"),
-			Mode:    rapid.SampledFrom([]int{0, 0, 0, 1, 1, 2}).Draw(rt, "mode"),
+			Mode:    rapid.SampledFrom([]int{0, 0, 0, 1, 1, 2, 3}).Draw(rt, "mode"),
 			UIDLen: rapid.OneOf(rapid.SampledFrom([]int{0, -1, 1, 16, 63, 64, 65, maxUID - 1, maxUID}),
 				rapid.IntRange(0, 200), rapid.IntRange(0, maxUID)).Draw(rt, "uidLen"),
 			MsgLen: gen.LenClass(2048, 64).Draw(rt, "msgLen"),
